@@ -71,6 +71,9 @@ func (s *session) request(ctx context.Context, req *ssh.Request) error {
 		if err != nil {
 			return err
 		}
+		if len(cmdline) == 0 {
+			return fmt.Errorf("empty command line")
+		}
 
 		s.anonssh.osenv.Logf("cmdline: %q", cmdline)
 		// 2021/09/12 21:25:34 cmdline: ["rsync" "--server" "--daemon" "."]
